@@ -45,6 +45,8 @@ def run(ch: Checker) -> None:
                      '_flush loops `while has_buffer()` around flush()', 2)
     ch.rule('C07.7', 'output queued for the UPSTREAM is written when its descriptor is writable: every method that tests `upstream fd in writables` calls upstream.flush() on the paths where that holds '
                      '(HttpProxyPlugin.write_to_descriptors, TcpUpstreamConnectionHandler.write_to_descriptors, BaseTcpTunnelHandler.handle_events)', 3)
+    ch.rule('C07.8', 'typestate: inside HttpProxyPlugin self.upstream is not dereferenced after a call that may have set it to None (_close_and_release and the like) unless it was re-tested: '
+                     'the AttributeError would end the work without the drain wait that delivers what is already queued for the client', 2)
     ch.rule('C07.4', 'is_inactive returns True only with an empty client buffer; Threadless._cleanup is called only from the enumerated sites', 2)
 
     # ---------------- C07.1
@@ -307,6 +309,10 @@ def run(ch: Checker) -> None:
     extra = callers - allowed
     ch.check(not extra and callers, 'C07.4', prog.own_method('Threadless', '_cleanup'), 'who may tear a work down',
              '_cleanup called from %s' % sorted(callers), 'a new caller tears works down outside the enumerated reasons (task teardown, idle reaping, init failure, broken event refresh): %s' % sorted(extra))
+    # ---------------- C07.8 use after release
+    from .common import use_after_release_check
+    use_after_release_check(ch, 'C07.8')
+
     # ---------------- C07.7 upstream side
     from .common import upstream_flush_check
     upstream_flush_check(ch, 'C07.7')
